@@ -242,7 +242,15 @@ OBJS = {
     "onewild_obj": (lambda: me.OneWild(head="h", single=me.GlobalThing(w=1), tail=2), "m_edge.OneWild"),
     "onewild_any": (lambda: me.OneWild(single=AnyElement(qname="{urn:o}free", text="t", attributes={"a": "1"})), "m_edge.OneWild"),
     "onewild_derived": (lambda: me.OneWild(single=DerivedElement(qname="{urn:e}other", value=me.Slotted(id=4), type="{urn:e}slotted")), "m_edge.OneWild"),
+    "wildchoice": (
+        lambda: me.WildChoice(items=[me.GlobalThing(w=1), 5, me.Color.RED, AnyElement(qname="{urn:o}free", text="f"), DerivedElement(qname="{urn:e}n", value=7), DerivedElement(qname="{urn:o}slot", value=me.Slotted(id=1), type="{urn:e}slotted")], label="l"),
+        "m_edge.WildChoice",
+    ),
     "attrmix": (lambda: me.AttrMix(id="i", lang="en", space="preserve", qualified=4, rest={"{urn:o}x": "1", "plain": "p"}, value=7), "m_edge.AttrMix"),
+}
+# objects whose annotations resolve only with SerializerConfig.globalns: serialized with that configuration only
+OBJS_GLOBALNS = {
+    "needsglobals": (lambda: me.NeedsGlobals(hidden_part=me._HiddenPart(v=1), hidden_parts=[me._HiddenPart(v=2), me._HiddenPart()], hidden_label="l"), "m_edge.NeedsGlobals"),
 }
 # late modules an object needs registered before it can be touched
 OBJ_NEEDS = {"bird": "L1", "zoo_bird": "L1", "lateroot": "L1", "latetwo": "L2"}
@@ -398,11 +406,23 @@ _x("hw_blobs_num", "m_edge.Blobs", """<blobs xmlns="urn:e"><numOrHex>12</numOrHe
 _x("hw_rated", "m_edge.Rated", """<rated xmlns="urn:e" rates="2 0.0 1.50" scale="1.00"><rate>1.5</rate><amount>-0</amount><unit>2.50</unit></rated>""")
 _x("hw_onewild", "m_edge.OneWild", """<e:oneWild xmlns:e="urn:e"><e:head>h</e:head><e:thing><e:w>1</e:w></e:thing><e:tail>2</e:tail></e:oneWild>""")
 _x("hw_onewild_two", "m_edge.OneWild", """<e:oneWild xmlns:e="urn:e"><e:slotted id="1"/><e:thing><e:w>1</e:w></e:thing><free>x</free></e:oneWild>""")
+_x("hw_wildchoice", "m_edge.WildChoice", """<e:wildChoice xmlns:e="urn:e" xmlns:o="urn:o" xmlns:xsi="http://www.w3.org/2001/XMLSchema-instance" label="l"><e:thing><e:w>1</e:w></e:thing><e:n>5</e:n><o:free a="1">f</o:free><e:color>red</e:color><e:color xsi:nil="true"/><e:slotted id="3"/><plain/></e:wildChoice>""")
 _x("hw_attrmix", "m_edge.AttrMix", """<e:attrMix xmlns:e="urn:e" xmlns:o="urn:o" id="i" xml:lang="en" xml:space="preserve" e:qualified="4" o:x="1" plain="p"> 7 </e:attrMix>""")
 _x("hw_item_constructs", "m_basic.Item", """<?xml version="1.0"?><!DOCTYPE item [<!ENTITY nm "entity name">]><?pi before?><!-- c --><item xmlns="urn:basic" id="&#49;" xml:lang="en"><?pi inside?><name>&nm; <![CDATA[<cdata>]]> &amp;<!-- in text --> end</name><qty><![CDATA[2]]></qty></item><!-- after --><?pi after?>""")
+_x("hw_item_leapday", "m_basic.Item", """<item xmlns="urn:basic" id="1"><name>leap</name><when>2024-02-29</when><stamp>2024-02-29T10:00:00Z</stamp><at>23:59:59.999</at><took>P1Y2M3DT4H5M6.5S</took></item>""")
+_x("hw_item_leapday_2000", "m_basic.Item", """<item xmlns="urn:basic" id="1"><name>leap</name><when>2000-02-29+02:00</when><stamp>-0004-02-29T00:00:00</stamp></item>""")
+_x("hw_item_feb28", "m_basic.Item", """<item xmlns="urn:basic" id="1"><name>common</name><when>2023-02-28</when><stamp>1900-02-28T10:00:00-05:00</stamp><at>00:00:00Z</at><took>-PT0.001S</took></item>""")
 _x("hw_item_rebound", "m_basic.Item", """<p:item xmlns:p="urn:basic" id="1"><p:name xmlns:p="urn:basic">n</p:name><q:qty xmlns:q="urn:basic">2</q:qty><p:ref xmlns:p="urn:other" xmlns:b="urn:basic">p:val</p:ref></p:item>""")
 XML["hw_item_utf16"] = ('<?xml version="1.0" encoding="UTF-16"?><item xmlns="urn:basic" id="1"><name>n\u00e9\u20ac</name></item>'.encode("utf-16"), "m_basic.Item", None)
 XML["hw_item_bom"] = (b"\xef\xbb\xbf" + '<item xmlns="urn:basic" id="1"><name>bom \u00e9</name></item>'.encode(), "m_basic.Item", None)
+
+# documents in files (relative path below sim/pool): name -> (path, class key, needs)
+XML_FILES = {
+    "file_xorder_eu": ("xinc/eu/order.xml", "m_edge.XOrder", None),
+    "file_xorder_us": ("xinc/us/order.xml", "m_edge.XOrder", None),
+    "file_customer_eu": ("xinc/eu/customer.xml", "m_edge.XCustomer", None),
+    "file_customer_us": ("xinc/us/customer.xml", "m_edge.XCustomer", None),
+}
 
 # documents that do not fit: name -> (bytes, class key, needs)
 BAD_XML = {}
@@ -430,6 +450,7 @@ _bx("bad_localbox_ns", "m_wild.LocalBox", """<w:localBox xmlns:w="urn:w" xmlns:q
 _bx("bad_union", "m_compound.EitherWay", """<either xmlns="urn:c"><pick zzz="1"><nope/></pick></either>""")
 _bx("bad_fixed", "m_basic.Item", """<item xmlns="urn:basic" id="1" version="2.0"><name>n</name></item>""")
 _bx("bad_empty", "m_basic.Item", "")
+_bx("bad_item_feb29", "m_basic.Item", """<item xmlns="urn:basic" id="1"><name>n</name><when>2023-02-29</when><stamp>1900-02-29T10:00:00</stamp><at>24:00:00</at></item>""")
 _bx("bad_tokens_repeated", "m_edge.Tokens", """<tokens xmlns="urn:e" req="r" one="purple"><colors>red blue</colors><colors/><row>1 x</row></tokens>""")
 _bx("bad_nillist", "m_edge.NilList", """<nilList xmlns="urn:e" xmlns:xsi="http://www.w3.org/2001/XMLSchema-instance" total="x"><value xsi:nil="true">5</value><value>x</value><opt xsi:nil="maybe"/><opt>2</opt></nilList>""")
 _bx("bad_blobs", "m_edge.Blobs", """<blobs xmlns="urn:e" key="a"><blob>a</blob><hex>0</hex><numOrHex>xyz</numOrHex></blobs>""")
@@ -437,6 +458,8 @@ _bx("bad_blobs", "m_edge.Blobs", """<blobs xmlns="urn:e" key="a"><blob>a</blob><
 # JSON documents: name -> (text, class key or None, needs)
 JSON = {
     "js_item": ('{"id": 5, "name": "j", "qty": 2, "tags": ["a", "b"], "kind": "small", "when": "2020-01-01", "ref": "{urn:refs}t", "flag": false, "price": "1.10", "lang": "en", "version": "1.0"}', "m_basic.Item", None),
+    "js_item_leapday": ('{"id": 1, "name": "leap", "when": "2024-02-29", "stamp": "2024-02-29T10:00:00Z"}', "m_basic.Item", None),
+    "js_item_feb28": ('{"id": 1, "name": "common", "when": "2023-02-28", "stamp": "2100-02-28T10:00:00Z"}', "m_basic.Item", None),
     "js_fault": ('{"code": "{urn:fault:v1}Sender", "sub": ["{urn:fault:v2}Sender"], "attr_code": null}', "m_basic.Fault", None),
     "js_fault_prefixed": ('{"code": "c:Sender", "sub": [], "attr_code": null}', "m_basic.Fault", None),
     "js_formats": ('{"b64": "ABCD", "b16": "ABCD", "dmy": "01/02/2020", "mdy": "01/02/2020", "plain": "2020-01-02"}', "m_basic.Formats", None),
@@ -457,6 +480,7 @@ JSON = {
     "js_tokens": ('{"colors": ["red", "blue"], "row": [[1, 2], [], [30]], "colorAttr": ["green"], "ids": ["i1", "i1"], "one": "red", "either": 30, "req": "r"}', "m_edge.Tokens", None),
     "js_blobs": ('{"blob": "aGVsbG8=", "hex": ["0102", ""], "numOrHex": "ABCD", "key": "aw==", "value": "FF"}', "m_edge.Blobs", None),
     "js_rated": ('{"rate": "1.5", "rates": ["2", "0"], "amount": "12.50", "scale": "1.0", "unit": 2.5}', "m_edge.Rated", None),
+    "js_wildchoice": ('{"items": [{"w": 1}, 5, "red", {"qname": "{urn:o}free", "text": "f", "tail": null, "children": [], "attributes": {}}, {"qname": "{urn:e}n", "type": null, "value": 7}, {"qname": "{urn:o}slot", "type": "{urn:e}slotted", "value": {"id": 1, "v": [], "kid": null}}], "label": "l"}', "m_edge.WildChoice", None),
     "js_attrmix": ('{"id": "i", "lang": "en", "space": null, "qualified": 4, "rest": {"{urn:o}x": "1", "plain": "p"}, "value": 7}', "m_edge.AttrMix", None),
     "js_noclass_thing_w": ('{"w": 5}', None, None),
     "js_noclass_thing_v": ('{"v": "only the local type has this"}', None, None),
